@@ -245,12 +245,15 @@ static void after_completion(session& s, verif::prng& r)
     // the central starts encryption, the link layer polls; then some more state changes
     const int n = 2 + static_cast<int>(r.below(5));
     for (int i = 0; i < n; ++i) {
-        switch (r.below(6)) {
+        switch (r.below(8)) {
         case 0: case 1: s.set_encrypted(true); break;
         case 2: s.set_encrypted(false); break;
+        case 3: case 4: s.poll_one(); break;      // one transmit buffer free: the key distribution is spread over several connection events
         default: s.poll(); break;
         }
     }
+    // systematic: encryption starts, one PDU goes out, encryption is paused before the next one, nothing may follow until it is resumed
+    if (r.chance(1, 2)) { s.set_encrypted(true); s.poll_one(); s.set_encrypted(false); s.poll_one(); s.poll(); }
     s.set_encrypted(true); s.poll(); s.poll();
 }
 
